@@ -26,6 +26,8 @@ pub const CERTS: &[(&str, bool, bool, bool, bool)] = &[
     ("selfsigned_ca", false, false, true, true),
     // the `good` chain presented by a peer that holds another private key: no waiver makes that peer the certificate's owner
     ("impostor", true, false, true, true),
+    // chains to the fixture root but carries no subjectAltName at all (subject CN=other.test): valid for no name
+    ("nosan", true, false, false, false),
 ];
 
 #[derive(Debug, Clone, Serialize, Deserialize, PartialEq, Eq, Hash)]
@@ -198,6 +200,8 @@ fn make_leaf(from: i64, to: i64) -> Option<(String, std::time::SystemTime)> {
 }
 
 fn apply_session(s: &mut attohttpc::Session, c: &Case) {
+    // (settings that have nothing to do with TLS are set along the way, before and after the ones that do)
+    s.allow_compression(c.host_form == 0);
     if c.invalid_certs {
         s.danger_accept_invalid_certs(true);
     }
@@ -219,7 +223,7 @@ fn apply_builder(mut b: attohttpc::RequestBuilder, c: &Case) -> attohttpc::Reque
     if c.add_root {
         b = b.add_root_certificate(root_cert_for(c));
     }
-    b
+    b.allow_compression(c.route % 2 == 0).max_headers(64)
 }
 
 /// A certificate that is valid now and expires in a few seconds: accepted while valid, refused once expired (a verdict reached
@@ -300,9 +304,9 @@ fn check_not_yet_valid(ctx: &mut Ctx) -> Outcome {
 impl Property for C14 {
     type Case = Case;
     const ID: &'static str = "C14";
-    const RULE: &'static str = "configuration matrix {chains to the added root, wrong name, self-signed, unknown issuer, expired, each with matching / differing name, valid for only one of the two names of the peer, self-signed CA:TRUE, the good chain served without its key} x accept_invalid_certs x accept_invalid_hostnames x root added {no, the CA, the presented certificate itself} x \
+    const RULE: &'static str = "configuration matrix {chains to the added root, wrong name, self-signed, unknown issuer, expired, each with matching / differing name, valid for only one of the two names of the peer, self-signed CA:TRUE, the good chain served without its key, a chain to the root without any subjectAltName} x accept_invalid_certs x accept_invalid_hostnames x root added {no, the CA, the presented certificate itself} x \
 route {direct https, inside a CONNECT tunnel through a plain proxy, https proxy presenting the certificate for an http origin and for a tunnelled https origin} x where the flags/root were set {session, this request, sibling request created before / after, session after the request was created} x \
-contacted host {localhost, 127.0.0.1}: 5955 cells per TLS backend (the product of 12 certificates, 192 cells in which a sibling request with a waiver is sent first, one cell with a certificate made at run time that expires between two exchanges, one with a certificate whose validity starts two minutes from now, 800 for an https proxy that carries a CONNECT tunnel, 400 with a waiver given and then withdrawn on the request), each a real TLS handshake against a rustls server on a loopback socket; both tiers run all cells of both backends. Oracle = the truth table, both directions. \
+contacted host {localhost, 127.0.0.1}: 6451 cells per TLS backend (the product of 13 certificates, 192 cells in which a sibling request with a waiver is sent first, one cell with a certificate made at run time that expires between two exchanges, one with a certificate whose validity starts two minutes from now, 800 for an https proxy that carries a CONNECT tunnel, 400 with a waiver given and then withdrawn on the request), each a real TLS handshake against a rustls server on a loopback socket; both tiers run all cells of both backends. Oracle = the truth table, both directions. \
 non-trivial = at least one danger flag, an added root or a non-valid certificate; distinct by cell";
 
     fn assumptions() -> Vec<String> {
